@@ -10,6 +10,8 @@ MCSeeds == {
   [L |-> LA, keep |-> TRUE,  batch |-> << <<7, 1>>, <<8, 3>> >>,           weighted |-> TRUE,  dtype |-> "f8", den |-> 2, name |-> 1],
   [L |-> LA, keep |-> FALSE, batch |-> << <<2, 1>>, <<9, 1>> >>,           weighted |-> FALSE, dtype |-> "i8", den |-> 1, name |-> 1],
   [L |-> LA, keep |-> TRUE,  batch |-> << >>,                              weighted |-> FALSE, dtype |-> "i8", den |-> 1, name |-> 1],
+  \* every value outside the bins: all contents zero, but underflow, overflow and statistics are not
+  [L |-> LA, keep |-> TRUE,  batch |-> << <<1, 1>>, <<9, 1>>, <<9, 1>> >>, weighted |-> FALSE, dtype |-> "i8", den |-> 1, name |-> 1],
   [L |-> LB, keep |-> TRUE,  batch |-> << <<3, 1>>, <<7, 1>> >>,           weighted |-> FALSE, dtype |-> "i8", den |-> 1, name |-> 1],
   [L |-> LG1, keep |-> TRUE, batch |-> << <<3, 1>>, <<7, 2>>, <<11, 1>> >>, weighted |-> TRUE, dtype |-> "f8", den |-> 2, name |-> 1],
   [L |-> LG2, keep |-> TRUE, batch |-> << <<3, 2>>, <<5, 1>>, <<11, 1>> >>, weighted |-> TRUE, dtype |-> "f8", den |-> 2, name |-> 1]
